@@ -1,7 +1,7 @@
 (** C12 -- reducing named dimensions equals the axis reduction, in memory and on file. *)
 From Coq Require Import List Arith Lia Bool ZArith.
 Require Import V.Base.ListAux V.Base.Radix V.Base.Matrix V.Base.NdArray V.Usid.SortOrder V.Usid.ToND V.Usid.ToNDProof V.Usid.FromND
-               V.Usid.Grid V.Usid.SelEnum V.Usid.Reduce V.Usid.ReduceProof V.Usid.ReduceGrid V.Usid.ReduceFile V.Usid.ReduceSqueezed V.Usid.ReduceVals V.Usid.UnitValues.
+               V.Usid.Grid V.Usid.SelEnum V.Usid.Reduce V.Usid.ReduceProof V.Usid.ReduceGrid V.Usid.ReduceFile V.Usid.ReduceSqueezed V.Usid.ReduceVals V.Usid.UnitValues V.Usid.ReduceMoments V.Usid.ReduceMomentsProof.
 Import ListNotations.
 
 (** The value at a kept index is the reduction of exactly the elements of the fibre over it ... *)
@@ -213,6 +213,75 @@ Theorem C12_rebuilt_side_reports_the_original_unit_values :
   = Ok (map (fun i => map (f (nth i keep 0)) (seq 0 (nth (nth i keep 0) sz 1))) (seq 0 (length keep))).
 Proof. intros. now apply reduced_unit_values. Qed.
 Print Assumptions C12_rebuilt_side_reports_the_original_unit_values.
+
+(** mean / std.  Every axis mean or standard deviation is a function of three exact numbers per kept index: the sum S, the sum
+    of squares Q and the count c of the fibre.  The model reduces the array of (x, x*x, 1) with componentwise addition; at every
+    kept index the result is (sum, sum of squares) of exactly the fibre of [C12_reduction_is_fibrewise] and c is the product of the
+    reduced sizes.  mean = S / c and variance = (c Q - S^2) / c^2 are then exact rationals; the correspondence compares them with
+    the floating-point numbers the library returned / wrote, inside the relative tolerance stated in [mean_close] / [std_close]. *)
+Theorem C12_moments_are_fibrewise :
+  forall (a : nd Z) (axes j : list nat),
+  let flags := ax_flags (length (nd_shape a)) axes in
+  let fibre := map (fun i => nd_get 0%Z a (merge flags j i)) (all_idx (part true flags (nd_shape a))) in
+  inbounds j (part false flags (nd_shape a)) ->
+  nd_get (lift 0%Z) (nd_reduce (lift 0%Z) mom_sum (nd_lift a) axes) j
+  = (zsum fibre, zsum (map (fun x => x * x)%Z fibre), prod (part true flags (nd_shape a))).
+Proof. exact moments_get. Qed.
+Print Assumptions C12_moments_are_fibrewise.
+
+(** the count is positive (mean and variance are defined) whenever every axis is non-empty *)
+Theorem C12_moments_count_positive : forall l : list nat, Forall (fun s => 0 < s) l -> 0 < prod l.
+Proof. exact prod_pos. Qed.
+Print Assumptions C12_moments_count_positive.
+
+(** (c Q - S^2) / c^2 IS the population variance: c (c Q - S^2) = sum over the fibre of (c x - S)^2, for every list *)
+Theorem C12_variance_from_moments :
+  forall l : list Z,
+  let c := Z.of_nat (length l) in let s := zsum l in let q := zsum (map (fun x => x * x)%Z l) in
+  zsum (map (fun x => (c * x - s) * (c * x - s))%Z l) = (c * (c * q - s * s))%Z.
+Proof. exact variance_from_moments. Qed.
+Print Assumptions C12_variance_from_moments.
+
+Theorem C12_variance_numerator_nonneg :
+  forall l : list Z, (0 <= Z.of_nat (length l) * zsum (map (fun x => x * x)%Z l) - zsum l * zsum l)%Z.
+Proof. exact variance_numerator_nonneg. Qed.
+Print Assumptions C12_variance_numerator_nonneg.
+
+(** what the comparison accepts: |n/d - S/c| <= 2^-16 (|S|/c + 1), written without division *)
+Theorem C12_mean_comparison_sound :
+  forall (s q : Z) (c : nat) (n d : Z),
+  mean_close (s, q, c) (n, d) = true ->
+  (0 < d /\ 0 < Z.of_nat c /\ Z.abs (n * Z.of_nat c - s * d) * 65536 <= (Z.abs s + Z.of_nat c) * d)%Z.
+Proof. exact mean_close_sound. Qed.
+Print Assumptions C12_mean_comparison_sound.
+
+(** on a grid dataset the moments are taken of the array of C01 (element at the coordinates of row r / column c = main[r][c])
+    along the axes whose numbers are the named dimensions *)
+Theorem C12_mean_std_in_memory :
+  forall (szp orderp szs orders : list nat) (main : list (list Z)) (pos : list (list nat)) (dims : list nat),
+    wf_grid szp orderp -> wf_grid szs orders ->
+    length szp <= prod (radices szp orderp) -> length szs <= prod (radices szs orders) ->
+    0 < length szp -> 0 < length szs ->
+    length main = prod (radices szp orderp) -> rect main (prod (radices szs orders)) ->
+    transpose2d 0 pos = grid_spec szp orderp -> ncols pos = length szp ->
+    Forall (fun dm => dm < length szp + length szs) dims ->
+    let spec := grid_spec szs orders in
+    exists a, reduce_mem_moments main pos spec dims = Ok (nd_reduce (lift 0%Z) mom_sum (nd_lift a) dims) /\
+      (forall r c, r < prod (radices szp orderp) -> c < prod (radices szs orders) ->
+         nd_get 0%Z a (pos_row pos (length szp) r ++ spec_col spec (length szs) c) = nth c (nth r main []) 0%Z) /\
+      length (nd_shape a) = length szp + length szs.
+Proof. exact reduce_mem_moments_grid. Qed.
+Print Assumptions C12_mean_std_in_memory.
+
+(** non-vacuity: a 2 x 3 array reduced over its second axis: sums 3 and 12, sums of squares 5 and 50, three elements each;
+    mean 1 (= 3/3) and 4, variance (3*5 - 9)/9 = 2/3; 0.816496580927726 (its square root as a binary fraction) is accepted,
+    0.82 is not *)
+Example C12_example_moments :
+  nd_data (nd_reduce (lift 0%Z) mom_sum (nd_lift (mkNd [2; 3] [0; 1; 2; 3; 4; 5]%Z)) [1]) = [(3%Z, 5%Z, 3); (12%Z, 50%Z, 3)]
+  /\ mean_close (3%Z, 5%Z, 3) (1, 1)%Z = true /\ mean_close (3%Z, 5%Z, 3) (9, 8)%Z = false
+  /\ std_close (3%Z, 5%Z, 3) (7354315163868475, 9007199254740992)%Z = true
+  /\ std_close (3%Z, 5%Z, 3) (82, 100)%Z = false.
+Proof. vm_compute. repeat split; reflexivity. Qed.
 
 (** With fewer than two axes left the call raises rather than writing a dataset that is not a Main dataset. *)
 Theorem C12_raises_when_fewer_than_two_axes_remain :
